@@ -80,6 +80,17 @@ def gen_cases(rng, ctx):
             l = line("c14_front", [[kind, hs, lt]])
             cases.append(Case(l, l, kind="live:listener-%s" % ["silent-tcp", "half-client-hello", "no-request-h1", "no-request-h2"][kind], nontrivial=True,
                               meta={"front": True, "kind": kind, "hs": hs, "lt": lt}))
+    # the service channels' session timer: after a completed speedtest download / upload / a ping the client stays connected
+    # and silent; the session has to be closed by its timer (HTTP/2 through the door and the TLS listener, HTTP/3 through QUIC)
+    for front, name in ((0, "h2"), (1, "h2-listener"), (3, "h3-quic")):
+        for ch, kind, path, hs, body in ((2, 6, "/1mb.bin", [], 0), (2, 7, "/upload.html", [("content-length", "5000")], 5000), (1, 6, "/", [], 0), (2, 6, "/0mb.bin", [], 0)):
+            cfg = [ch, 1, 1, 1, 1, 0, 0, 300, 0, front, 1]
+            flat = []
+            for n_, v_ in hs:
+                flat += [len(n_)] + list(n_.encode()) + [len(v_)] + list(v_.encode())
+            l = line("c18_session", [cfg, [kind], list(path.encode()), flat] + ([[body]] if body else [[]]))
+            cases.append(Case(l, None, kind="live:service-session-idle-%s" % name, nontrivial=True,
+                              meta={"idle": True, "what": "%s %s on the %s channel (%s)" % ({6: "GET", 7: "POST"}[kind], path, {1: "ping", 2: "speedtest"}[ch], name)}))
     return cases
 
 
@@ -87,6 +98,20 @@ RETRY_PREFIX = "live"
 
 
 def judge(case, impl, model, spec, ctx):
+    if case.meta.get("idle"):
+        if impl == "999":
+            return [("violation", "the session harness panicked")]
+        if impl == "996":
+            ctx.setdefault("skipped_env", []).append(case.kind)
+            return []
+        t = impl.split()
+        status = untok(t[0])[0]
+        closed = untok(t[-1])[0]
+        if status not in (200, 400):
+            return [("disagree", "%s: answered %d" % (case.meta["what"], status))]
+        if closed != 1:
+            return [("violation", "%s, then the client stays connected and silent, session timeout 300 ms: the session was still open after 1400 ms" % case.meta["what"])]
+        return []
     if case.meta.get("establish"):
         m = case.meta
         if impl == "999":
